@@ -149,16 +149,8 @@ extern uint64_t cmb_priorityqueue_position(const struct cmb_priorityqueue *pqp,
  * @param handle Handle of the object to reprioritize
  * @param priority New priority for the object
  */
-static inline bool cmb_priorityqueue_cancel(struct cmb_priorityqueue *pqp,
-                                            const uint64_t handle)
-{
-    cmb_assert_release(pqp != NULL);
-
-    struct cmi_hashheap *hp = &(pqp->queue);
-    const bool found = cmi_hashheap_remove(hp, handle);
-
-    return found;
-}
+extern bool cmb_priorityqueue_cancel(struct cmb_priorityqueue *pqp,
+                                     uint64_t handle);
 
 /**
  * @brief Change the priority of an object in the queue, reshuffling as needed.
